@@ -271,6 +271,8 @@ func (g *generator) walkEnum(schema *openapi3.Schema) (ast.Type, error) {
 	typeName := openapi3.TypeInteger
 	if schema.Type != nil && len(schema.Type.Slice()) != 0 {
 		typeName = schema.Type.Slice()[0]
+	} else if len(schema.Enum) == 0 {
+		return ast.Type{}, fmt.Errorf("enum with no values")
 	} else if _, isString := schema.Enum[0].(string); isString {
 		typeName = openapi3.TypeString
 	}
